@@ -12,7 +12,11 @@ VARIABLE l
 Init == l = 1
 Bound(tl) == CASE tl = -8 -> -11 [] tl = -11 -> -16 [] tl = -14 -> -21
 Step(ev) == \/ ev.out = "err"
-            \/ ev.out = "ok" /\ ev.finite = TRUE /\ ev.predict_is_inverse_link = TRUE /\ ev.score_rel_log2 <= Bound(ev.tol_log10)
+            \/ /\ ev.out = "ok" /\ ev.finite = TRUE /\ ev.predict_is_inverse_link = TRUE
+               \* the score is measured against the size of its own terms, or - where the terms themselves vanish (separated
+               \* Bernoulli data: fitted probabilities at 0 / 1, all residual terms of one sign) - against the scale of the data
+               \* sum_i w_i |x_ij| max(1, |y_i|); either way to within the same function of the tolerance
+               /\ (ev.score_rel_log2 <= Bound(ev.tol_log10) \/ ev.score_abs_log2 <= Bound(ev.tol_log10))
 Next == l <= Len(Rec) /\ Step(Rec[l]) /\ l' = l + 1
 Spec == Init /\ [][Next]_l
 Accepted == LET d == TLCGet("stats").diameter IN
